@@ -1,6 +1,7 @@
 mod c09sem;
 mod c02mut;
 mod c10;
+mod c11;
 mod cexec;
 mod exec;
 mod progs;
@@ -16,7 +17,7 @@ mod text;
 use crate::core::{CheckDef, Tier};
 
 fn defs() -> Vec<&'static CheckDef> {
-    vec![&cexec::C02, &cexec::C04, &cexec::C05, &c10::C09, &c10::C10, &c14::C14, &c15::C15, &cexec::C17, &c18::C18]
+    vec![&cexec::C02, &cexec::C04, &cexec::C05, &c10::C09, &c10::C10, &c11::C11, &c14::C14, &c15::C15, &cexec::C17, &c18::C18]
 }
 
 fn main() {
